@@ -97,6 +97,11 @@ class StmtMixin:
         if v.ty.kind == "Iter":
             raise Unsupported("returning a lazy iterator", node)
         live = self.live(st)
+        if self.call_depth == 0 and not self.dry and self.collect_returns is not None:
+            # remember the state at this return statement: postconditions are proved here, on the un-merged state
+            site = st.copy()
+            site.written = set(st.written)
+            self.collect_returns.append((site, v, getattr(node, "lineno", 0)))
         if st.ret_val is None or is_true(live):
             st.ret_val = v
         else:
@@ -128,7 +133,11 @@ class StmtMixin:
         for p, a in zip(params, args):
             sub.env[p] = a
         sub.ret, sub.ret_val, sub.brk, sub.cont = False, None, False, False
-        self.exec_block(fnode.body, sub)
+        self.call_depth += 1
+        try:
+            self.exec_block(fnode.body, sub)
+        finally:
+            self.call_depth -= 1
         st.heap = sub.heap
         return sub.ret_val if sub.ret_val is not None else Val(TNone, self.S.none_val)
 
@@ -300,6 +309,11 @@ class StmtMixin:
     def check_invs(self, kind, lid, spec, st, ghost, node, stage):
         """spec: list of (label, text).  stage in init/step -> obligations; 'assume' -> assumptions"""
         for label, text in spec:
+            if label.startswith("step:"):
+                # two-state step relation: proved for every iteration (state at the loop head vs. end of the body);
+                # neither assumed at the head nor required initially
+                if stage != "step":
+                    continue
             env = dict(st.env)
             env.update(ghost)
             g = self.eval_spec(text, env, st, old_heap=self.fn_old_heap, old_env=self.fn_old_env)
@@ -351,7 +365,11 @@ class StmtMixin:
             ghost2 = dict(ghost)
             if is_for:
                 ghost2["_i"] = Val(TInt, i + 1)
-            self.check_invs(kind, lid, spec, s, ghost2, node, "step")
+            self.loop_head.append((dict(h.heap), dict(h.env)))
+            try:
+                self.check_invs(kind, lid, spec, s, ghost2, node, "step")
+            finally:
+                self.loop_head.pop()
             self.probe("loop#%d-body-reachable" % lid, s)
             s.path.pop()
             # 4. continuation: exit (guard false) or break/return from the step
